@@ -1,9 +1,9 @@
 /-! # C20 — `tracereader.ReadTrace` / `extractInst` as a parser over lines, and the spec-side `render`
 
 Lines and tokens are `List Char`.  The `fmt.Sscanf` verbs are modelled as Go implements them:
-`%d`/`%x` = optional sign, maximal run of digit characters of the base (no `0x` prefix!), value 0 and
+`%d`/`%x` = optional sign, maximal run of digit characters of the base (no `0x` prefix, no `_`), value 0 and
 no assignment on any error (empty run, overflow of the field type); `%v` = Go-syntax prefix
-(`0x`, `0b`, `0o`, leading `0` = octal); `strconv.Atoi` = whole token, clamped on overflow.
+(`0x`, `0b`, `0o`, leading `0` = octal), digits and `_` checked by `strconv.underscoreOK`; `strconv.Atoi` = whole token, clamped on overflow.
 `legacyAddr = true` is the reader before the `fix:` commit (`%x` for the memory address). -/
 namespace C20
 
@@ -46,12 +46,13 @@ def splitSign : List Char → Bool × List Char
 
 def signed (neg : Bool) (v : Nat) : Int := if neg then -(v : Int) else (v : Int)
 
-/-- `%d` (b = 10) / `%x` (b = 16) into a signed field of `bits` bits: value and rest of input; `none` = scan error -/
+/-- `%d` (b = 10) / `%x` (b = 16) into a signed field of `bits` bits: value and rest of input; `none` = scan error.
+    The digit run of `%d`/`%x` does not include `_` (`"1_0"` scans as 1, rest `"_0"`); only `%v` accepts underscores. -/
 def scanBase (b bits : Nat) (s : List Char) : Option (Int × List Char) :=
   let sg := splitSign s
-  let run := sg.2.takeWhile (fun c => isDigit b c || c == '_')
-  let rest := sg.2.dropWhile (fun c => isDigit b c || c == '_')
-  if run.isEmpty || run.contains '_' then none
+  let run := sg.2.takeWhile (isDigit b)
+  let rest := sg.2.dropWhile (isDigit b)
+  if run.isEmpty then none
   else
     let i := signed sg.1 (valOf b run)
     if fits 64 i && fits bits i then some (i, rest) else none
@@ -59,22 +60,49 @@ def scanBase (b bits : Nat) (s : List Char) : Option (Int × List Char) :=
 /-- value stored by `fmt.Sscanf(tok, "%d"/"%x", &field)` into a zero field -/
 def scanTok (b bits : Nat) (s : List Char) : Int := ((scanBase b bits s).map (·.1)).getD 0
 
-/-- `%v` into an int64 -/
-def scanV (s : List Char) : Int :=
-  let sg := splitSign s
-  let go (b : Nat) (body : List Char) (needDigit : Bool) : Int :=
-    let run := body.takeWhile (fun c => isDigit b c || c == '_')
-    if (needDigit && run.isEmpty) || run.contains '_' then 0
-    else let i := signed sg.1 (valOf b run); if fits 64 i then i else 0
-  match sg.2 with
-  | '0' :: 'x' :: r => go 16 r true
-  | '0' :: 'X' :: r => go 16 r true
-  | '0' :: 'b' :: r => go 2 r true
-  | '0' :: 'B' :: r => go 2 r true
-  | '0' :: 'o' :: r => go 8 r true
-  | '0' :: 'O' :: r => go 8 r true
-  | '0' :: r => go 8 r false
-  | r => go 10 r true
+/-! ## Go white space (`unicode.IsSpace` = `fmt.isSpace`) -/
+def isSpaceC (c : Char) : Bool :=
+  let n := c.toNat
+  (decide (9 ≤ n) && decide (n ≤ 13)) || n == 32 || n == 0x85 || n == 0xA0 || n == 0x1680 ||
+  (decide (0x2000 ≤ n) && decide (n ≤ 0x200a)) || n == 0x2028 || n == 0x2029 || n == 0x202f ||
+  n == 0x205f || n == 0x3000
+
+/-- `(*ss).SkipSpace` (no newline can occur inside a line) -/
+def skipSp (s : List Char) : List Char := s.dropWhile isSpaceC
+
+/-- `strconv.underscoreOK` on a run of digits and `_`; `prev`: 0 = start of the number, 1 = after a
+    digit or a base prefix, 2 = after an underscore -/
+def usOK : Nat → List Char → Bool
+  | p, [] => p != 2
+  | p, c :: r => if c = '_' then (p == 1 && usOK 2 r) else usOK 1 r
+
+/-- digits of base `b` (and `_`) after the sign/prefix: magnitude and rest -/
+def vGo (b : Nat) (body : List Char) (zeroLed needDigit : Bool) : Option (Nat × List Char) :=
+  let p := fun c => isDigit b c || c == '_'
+  let run := body.takeWhile p
+  if (needDigit && run.isEmpty) || !usOK (if zeroLed then 1 else 0) run then none
+  else some (valOf b (run.filter (fun c => c != '_')), body.dropWhile p)
+
+/-- `scanBasePrefix` + `scanNumber` + `ParseUint(tok, 0, 64)` without the range check -/
+def scanVMag : List Char → Option (Nat × List Char)
+  | '0' :: 'b' :: r => vGo 2 r true true
+  | '0' :: 'B' :: r => vGo 2 r true true
+  | '0' :: 'o' :: r => vGo 8 r true true
+  | '0' :: 'O' :: r => vGo 8 r true true
+  | '0' :: 'x' :: r => vGo 16 r true true
+  | '0' :: 'X' :: r => vGo 16 r true true
+  | '0' :: r => vGo 8 r true false
+  | r => vGo 10 r false true
+
+/-- `%v` into an `int64` -/
+def scanVI (s : List Char) : Option (Int × List Char) :=
+  let sg := splitSign (skipSp s)
+  match scanVMag sg.2 with
+  | none => none
+  | some (m, rest) => let i := signed sg.1 m; if fits 64 i then some (i, rest) else none
+
+/-- value stored by `fmt.Sscanf(tok, "%v", &int64Field)` into a zero field (0 on a scan error) -/
+def scanV (s : List Char) : Int := ((scanVI s).map (·.1)).getD 0
 
 /-- `strconv.Atoi`: whole token; syntax error → 0, range error → clamped -/
 def atoi (s : List Char) : Int :=
